@@ -1154,7 +1154,17 @@ fn main() {
                     g.in_trait_decl = false;
                     g.vis = "pub".into();
                     g.file = format!("{} (default of trait {} for {})", f.file, ti.trait_name, ti.type_name);
-                    let mut pn = PathNorm { assoc: &ti.assoc, sites: 0 };
+                    // associated types may be declared in the impl of a supertrait for the same type
+                    // (`impl FungibleToken for T { type ContractType = Vault; }` + `impl FungibleVault for T {}`)
+                    let mut assoc = ti.assoc.clone();
+                    for tj in &c.trait_impls {
+                        if tj.type_name == ti.type_name {
+                            for (k, v) in &tj.assoc {
+                                assoc.entry(k.clone()).or_insert(v.clone());
+                            }
+                        }
+                    }
+                    let mut pn = PathNorm { assoc: &assoc, sites: 0 };
                     pn.visit_block_mut(&mut g.block);
                     pn.visit_signature_mut(&mut g.sig);
                     synth.push(g);
